@@ -30,6 +30,8 @@ class Graph:
                     e = json.loads(e)
                 self.nedges += 1
                 s, t, a = e["f"], e["t"], e["a"]
+                if isinstance(s, list):
+                    s, t = tuple(s), tuple(t)      # (fingerprint, salted fingerprint): 64 bits of state identity
                 if first is None:
                     first = s
                 sources.add(s)
